@@ -28,6 +28,10 @@ def gen(rng, tier, no, wide=False):
     case = C.gen_with(rng, _has_comm, **({"stream_zero": True} if rng.random() < 0.15 else {}))
     if rng.random() < 0.03:
         case = C.many_ranks(rng, case)
+    # sub-microsecond stream: the same trace with every time divided by 8 (dyadic fractions of a microsecond), analysed
+    # with HTA_DISABLE_NS_ROUNDING=1; the percentage is invariant under that scaling, so the model and the oracle keep
+    # working on the integer trace
+    case["params"] = {"frac": rng.random() < 0.1}
     return case
 
 
@@ -39,6 +43,33 @@ def in_domain(case, obs) -> bool:
     return all(any(_COMM.match(x[9]) for x in C.dev_rows(rows)) for rows in obs["rows"].values())
 
 
+def _observe_frac(case):
+    import copy
+    import os
+    c2 = copy.deepcopy(case)
+    c2.pop("pre", None)
+    for ev in c2["ranks"].values():
+        for e in ev:
+            if isinstance(e, dict):
+                if "ts" in e:
+                    e["ts"] = e["ts"] / 8.0
+                if "dur" in e:
+                    e["dur"] = e["dur"] / 8.0
+    os.environ["HTA_DISABLE_NS_ROUNDING"] = "1"
+    files = None
+    try:
+        files = htaio.write_case(c2)
+        ta = htaio.load(files, ctor=case.get("ctor"))
+        df = ta.get_comm_comp_overlap(visualize=False)
+        return {int(rec.rank): C.num(rec.comp_comm_overlap_pctg) for rec in df.itertuples(index=False)}
+    except Exception as e:  # noqa: BLE001
+        return {"raises": "sub-microsecond run: " + C.exc_name(e)}
+    finally:
+        os.environ.pop("HTA_DISABLE_NS_ROUNDING", None)
+        if files:
+            htaio.remove_case_dir(files)
+
+
 def observe(case):
     ta, files = C.load_case(case)
     try:
@@ -48,6 +79,8 @@ def observe(case):
             canon = {int(rec.rank): C.num(rec.comp_comm_overlap_pctg) for rec in df.itertuples(index=False)}
         except Exception as e:  # noqa: BLE001
             canon = {"raises": C.exc_name(e)}
+        if (case.get("params") or {}).get("frac") and "raises" not in canon:
+            canon = _observe_frac(case)
         return {"rows": rows, "canon": canon}
     finally:
         htaio.remove_case_dir(files)
@@ -122,6 +155,7 @@ def oracle(case, obs) -> List[str]:
 def features(case, obs):
     f = G.features(case)
     f["overlap_nonzero"] = int(any(v not in (0, "nan") for v in obs["canon"].values())) if "raises" not in obs["canon"] else 0
+    f["sub_microsecond"] = int(bool((case.get("params") or {}).get("frac")))
     return f
 
 
